@@ -180,14 +180,19 @@ def terminal_key(o, env):
     o = env.alias.get(o, o)
     n = type(o).__name__
     if n == "Coefficient":
-        return ("coef", o.count())
-    if n == "Argument":
-        return ("arg", o.number(), o.part())
-    if n == "Constant":
-        return ("const", o.count())
-    if n == "Cofunction":
-        return ("cofun", o.count())
-    raise ModelGap(n)
+        k = ("coef", o.count())
+    elif n == "Argument":
+        k = ("arg", o.number(), o.part())
+    elif n == "Constant":
+        k = ("const", o.count())
+    elif n == "Cofunction":
+        k = ("cofun", o.count())
+    else:
+        raise ModelGap(n)
+    ka = getattr(env, "key_alias", None)
+    if ka:
+        k = ka.get(k, k)
+    return k
 
 
 # -----------------------------------------------------------------------------------------------
